@@ -101,7 +101,7 @@ def _gen_scope_init(rng):
 def generate(rng, index, cfg):
     swarm = {
         "faults": rng.random() < 0.35,
-        "xdg": rng.choice(["default", "unset", "alt"]),
+        "xdg": rng.choice(["default", "unset", "alt", "empty"]),
         "custom_attributesfile": rng.random() < 0.25,
         "p_global": rng.choice([0.2, 0.5, 0.8]),
         "p_outside": rng.choice([0.0, 0.1, 0.3]),
@@ -176,6 +176,9 @@ class Runner:
         tw = self.trace["world"]
         if tw["xdg"] == "unset":
             w.env.pop("XDG_CONFIG_HOME", None)
+            self.xdg_dir = os.path.join(w.home, ".config")
+        elif tw["xdg"] == "empty":
+            w.env["XDG_CONFIG_HOME"] = ""          # exported but empty: git treats it as unset
             self.xdg_dir = os.path.join(w.home, ".config")
         elif tw["xdg"] == "alt":
             w.env["XDG_CONFIG_HOME"] = os.path.join(w.home, "xdgalt")
